@@ -178,4 +178,29 @@ theorem lower_recased_struct : ∀ (fs : Fields) (m m' : JM), recasedStruct fs m
   | _, .cons _ _ _, .nil, h => by simp [recasedStruct] at h
 end
 
+/-! ### round 5c: adding fresh keys one after the other is appending -/
+theorem IM.append_assoc : ∀ (a b c : IM), (a.append b).append c = a.append (b.append c)
+  | .nil, _, _ => rfl
+  | .cons k i t, b, c => by simp [IM.append, IM.append_assoc t b c]
+
+theorem IM.append_nil : ∀ (a : IM), a.append .nil = a
+  | .nil => rfl
+  | .cons k i t => by simp [IM.append, IM.append_nil t]
+
+theorem addAll_fresh : ∀ (im acc : IM), (∀ q, im.keys.contains q = true → acc.get? q = none) → hasDup im.keys = false →
+    addAll acc im = some (acc.append im)
+  | .nil, acc, _, _ => by simp [addAll, IM.append_nil]
+  | .cons k i t, acc, H, hd => by
+    simp only [IM.keys, hasDup, Bool.or_eq_false_iff] at hd
+    have hk : acc.get? k = none := H k (by simp [IM.keys])
+    have hmem : ∀ q, t.keys.contains q = true → (IM.cons k i t).keys.contains q = true := by
+      intro q hq; simp only [IM.keys, List.contains_cons, hq, Bool.or_true]
+    have ih := addAll_fresh t (acc.append (.cons k i .nil)) (by
+      intro q hq
+      have h1 : acc.get? q = none := H q (hmem q hq)
+      have hne : k ≠ q := by
+        intro e; subst e; rw [hd.1] at hq; cases hq
+      simp [IM.get?_append, h1, IM.get?, hne]) hd.2
+    simp only [addAll, addOrMerge, hk, ih, IM.append_assoc, IM.append]
+
 end GoZero.C17
